@@ -18,7 +18,8 @@ static struct {
         int          search_visits, search_bound, search_cuts;
         /* what the executions reached (self check / outcomes) */
         int          reached_pop_obj, reached_drcs, reached_top_nav, reached_flof, reached_trigger_ev,
-                     reached_xds_ev, reached_itv, reached_top_index, reached_title, reached_lop_fetch;
+                     reached_xds_ev, reached_itv, reached_top_index, reached_title, reached_lop_fetch,
+                     reached_hex_nav;       /* a page with a hexadecimal number formatted with 25 rows + navigation (seed C01 round 5) */
 } G;
 
 /* strings handed to the application live in fixed arrays and are documented as NUL terminated:
@@ -141,13 +142,14 @@ static void feed_cc(int line, unsigned c1, unsigned c2) { feed_cc_raw(line, vbi_
 enum {
         /* headers, magazine 1 */
         P_H100E, P_H100, P_H100S, P_H100SUB1, P_H100SUB2, P_H100NEWS, P_H100C7, P_H100NAT, P_H101, P_H102, P_H103,
+        P_H10A, P_H12F, P_H18A, P_H18B,         /* displayable pages with hexadecimal numbers (the MIP rows 9 / 11 list them) */
         P_H1F0, P_H1FD, P_H1FE, P_H1E7, P_H17A, P_H17B, P_H17C, P_H17D, P_H17E, P_H16A, P_H16B, P_H1FF,
         P_H200, P_H200S, P_H2FD, P_H800, P_H8FF, P_HBADPAGE, P_HBADSUB, P_HBADFLAGS,
         /* rows */
         P_R1_TEXT, P_R1_ATTR, P_R1_BADPAR, P_R2_SIZE, P_R23_DH, P_R24_FLOF, P_R25, P_R1_M2,
-        P_MIP_R1, P_MIP_R11, P_MIP_R15,
+        P_MIP_R1, P_MIP_R9, P_MIP_R11, P_MIP_R15,
         P_MOT_R1, P_MOT_R10, P_MOT_R19, P_MOT_R21, P_MOT_R22, P_MOT_R24,
-        P_BTT_R1, P_BTT_R21, P_AIT_R1, P_MPT_R1, P_MPX_R1, P_BTT_R21B, P_AIT_R1C, P_AIT_R1D, P_BTT_R1S,
+        P_BTT_R1, P_BTT_R21, P_AIT_R1, P_MPT_R1, P_MPX_R1, P_BTT_R21B, P_AIT_R1C, P_AIT_R1D, P_BTT_R1S, P_BTT_R1G,
         P_POP_R1, P_POP_R3, P_POP_R4, P_DRCS_R1, P_DRCS_R2,
         P_TRIG_A, P_TRIG_B, P_TRIG_C, P_TRIG_D, P_TRIG_E,
         /* enhancement */
@@ -187,6 +189,12 @@ static void build_packets(void)
         /* pages the MIP of P_MIP_R1 lists as subtitle pages (codes 0x70, 0x77): parse_mip_page() looks at their cached copy */
         pk_hdr(PN(P_H102, "H102+erase (MIP: subtitle page)"), 1, 0x02, 0x0080, 0);
         pk_hdr(PN(P_H103, "H103+erase (MIP: subtitle page)"), 1, 0x03, 0x0080, 0);
+        /* seed C01 round 5: pages with hexadecimal numbers are ordinary displayable pages once a MIP lists them as normal /
+         * schedule / subtitle page (packet.c stores them with function LOP): 10A, 12F from P_MIP_R9, 18A, 18B from P_MIP_R11 */
+        pk_hdr(PN(P_H10A, "H10A+erase (MIP row9: normal page)"), 1, 0x0A, 0x0080, 0);
+        pk_hdr(PN(P_H12F, "H12F+erase (MIP row9: normal page)"), 1, 0x2F, 0x0080, 0);
+        pk_hdr(PN(P_H18A, "H18A+erase (MIP row11: normal page)"), 1, 0x8A, 0x0080, 0);
+        pk_hdr(PN(P_H18B, "H18B+erase (MIP row11: subtitle page)"), 1, 0x8B, 0x0080, 0);
         pk_hdr(PN(P_H1F0, "H1F0(BTT)"), 1, 0xF0, 0x0080, 0);
         pk_hdr(PN(P_H1FD, "H1FD(MIP)"), 1, 0xFD, 0x0080, 0);
         pk_hdr(PN(P_H1FE, "H1FE(MOT)"), 1, 0xFE, 0x0080, 0);
@@ -223,6 +231,11 @@ static void build_packets(void)
         d = PN(P_MIP_R1, "MIP row1 (100..119)"); pk_addr(d, 1, 1);
         { static const int c[20] = { 0x50, 0x02, 0x70, 0x77, 0x81, 0xD0, 0x7B, 0x7A, 0x78, 0x79,  0x7C, 0x7D, 0x7E, 0x7F, 0xF8, 0xE0, 0x00, 0x01, 0x4F, 0xCF };
           for (int i = 0; i < 20; i++) pk_h16(d, 2 + 2 * i, c[i]); }
+        /* row 9 = pages 10A-10F, 11A-11F, 12A-12F: every class of displayable page (single page, multi page, subtitle, schedule,
+         * now/next, engineering), no page, unknown, object pages - no code that needs the sub-page index of row 15 */
+        d = PN(P_MIP_R9, "MIP row9 (10A..12F: normal, subtitle, schedule pages...)"); pk_addr(d, 1, 9);
+        { static const int c[18] = { 0x01, 0x02, 0x70, 0x81, 0x7C, 0xF4,  0x01, 0x4F, 0x77, 0xCF, 0x00, 0xFF,  0x01, 0x82, 0xE5, 0xEC, 0x7D, 0x01 };
+          for (int i = 0; i < 18; i++) pk_h16(d, 2 + 2 * i, c[i]); }
         d = PN(P_MIP_R11, "MIP row11 (16A..18F: GPOP,TOP,DRCS,POP,trigger,EPG...)"); pk_addr(d, 1, 11);
         { static const int c[18] = { 0xEC, 0xFE, 0xE7, 0xF9, 0x52, 0xFF,  0xE5, 0xE6, 0xE8, 0xFC, 0xE3, 0xFD,  0x01, 0x70, 0x50, 0xE0, 0x7B, 0xF8 };
           for (int i = 0; i < 18; i++) pk_h16(d, 2 + 2 * i, c[i]); }
@@ -257,6 +270,10 @@ static void build_packets(void)
         /* the same table with page 101 listed as a subtitle page: parse_btt() looks a listed subtitle page up in the cache */
         d = PN(P_BTT_R1S, "BTT row1 (101 subtitles)"); pk_addr(d, 1, 1);
         { static const int c[40] = { 4,1,9,10,11,1,2,3,6,7,  5,8,8,0,12,15,1,6,8,8,  4,10,10,8,8,8,7,8,8,1,  8,8,8,8,8,8,8,8,8,8 };
+          pk_nib(d, 2, c, 40); }
+        /* seed C01 round 5: a page table that knows groups, schedule, subtitle and normal pages but no block page (codes 4, 5) */
+        d = PN(P_BTT_R1G, "BTT row1 (groups 100, 110, 117, 126; no block)"); pk_addr(d, 1, 1);
+        { static const int c[40] = { 6,8,9,10,11,8,2,3,8,8,  7,8,8,0,12,15,8,6,8,8,  8,10,10,1,8,8,7,8,8,8,  8,8,8,8,8,8,8,8,8,8 };
           pk_nib(d, 2, c, 40); }
         d = PN(P_BTT_R21, "BTT row21 (links AIT 17C, MPT 17D, MPT-EX 17E)"); pk_addr(d, 1, 21);
         { static const int l[5][8] = { {1,0x7,0xC,0,0,0,0,2}, {1,0x7,0xD,0,0,0,0,1}, {1,0x7,0xE,0,0,0,1,3}, {0,0xF,0xF,3,15,7,15,2}, {1,0,0,0,0,0,0,7} };
@@ -561,6 +578,7 @@ static int fetch_vt(vbi_page *pg, int pgno, int subno, int level, int rows, int 
                         if (memcmp(&pg->text[i], fill, 8)) { viol("fetched vbi_page: text[] written beyond row 25", "text[%d] | page %x rows %d level %d | %s", i, pgno, rows, level, cur_ctx); break; }
                 }
                 G.reached_lop_fetch++;
+                if (rows >= 25 && nav && pgno >= 0x100 && pgno <= 0x8FF && !vbi_is_bcd(pgno)) G.reached_hex_nav++;
                 if (pgno == 0x900) G.reached_top_index++;
                 for (int i = 16; i < 32; i++) if (pg->drcs[i]) { G.reached_drcs++; break; }
         }
